@@ -3,12 +3,12 @@
 From V Require Import Common.Base C17.WriteSM C17.Spec C17.Proofs C17.DiskProofs C17.SpecProofs.
 From Coq Require Import String.
 
-(* a rebuild that fails removes files *)
-Lemma failed_build_deletes_nothing_refuted_w :
+(* before d19e8cb: a rebuild that fails removes files *)
+Lemma before_fix_failed_build_deleted_files_w :
   exists opt d0 oc1 oc2,
-    let st1 := fst (step phys_id opt (init d0) oc1) in
-    let st2 := fst (step phys_id opt st1 oc2) in
-    let r2 := snd (step phys_id opt st1 oc2) in
+    let st1 := fst (step_before_fix phys_id opt (init d0) oc1) in
+    let st2 := fst (step_before_fix phys_id opt st1 oc2) in
+    let r2 := snd (step_before_fix phys_id opt st1 oc2) in
     r_failed_early r2 = true /\
     exists p, lookup (disk st1) p <> None /\ lookup (disk st2) p = None.
 Proof.
@@ -17,19 +17,20 @@ Proof.
 Qed.
 
 (* ... including a file that is an input of the failing build, without permission to overwrite *)
-Lemma no_input_deleted_refuted_w :
+Lemma before_fix_failed_build_deleted_input_w :
   exists opt d0 oc1 oc2,
-    let st1 := fst (step phys_id opt (init d0) oc1) in
-    let st2 := fst (step phys_id opt st1 oc2) in
+    let st1 := fst (step_before_fix phys_id opt (init d0) oc1) in
+    let st2 := fst (step_before_fix phys_id opt st1 oc2) in
+    r_failed_early (snd (step_before_fix phys_id opt st1 oc2)) = true /\
     effective_allow opt = false /\
     exists p, In p (inputs oc2) /\ lookup (disk st1) p <> None /\ lookup (disk st2) p = None.
 Proof.
-  exists w_opts, w_disk0, w_oc1, w_oc2. split; [vm_compute; reflexivity|].
+  exists w_opts, w_disk0, w_oc1, w_oc2. split; [vm_compute; reflexivity|]. split; [vm_compute; reflexivity|].
   exists (P "/out/old.js"). vm_compute. split; [right; right; left; reflexivity | split; [discriminate | reflexivity]].
 Qed.
 
 (* a successful rebuild deletes a stale output that is an input of the
-   current build; the repair of the failed-rebuild defect does not change that *)
+   current build, before and after d19e8cb *)
 Lemma no_input_deleted_by_successful_rebuild_refuted_w :
   forall fixed, exists opt d0 oc1 oc2,
     let st1 := fst (step_gen phys_id fixed opt (init d0) oc1) in
@@ -67,15 +68,15 @@ Proof.
   exists (P "/out/a.js"). vm_compute. split; [reflexivity | discriminate].
 Qed.
 
-(* the strong reading of the specification fails on the faithful model *)
-Lemma spec_failed_unchanged_refuted_w :
+(* before d19e8cb the strong reading of the specification failed *)
+Lemma before_fix_spec_failed_unchanged_refuted_w :
   exists opt st oc own,
-    let st' := fst (step phys_id opt st oc) in
-    let r := snd (step phys_id opt st oc) in
+    let st' := fst (step_before_fix phys_id opt st oc) in
+    let r := snd (step_before_fix phys_id opt st oc) in
     to_stdout opt = false /\ (forall p, In p (keys (latest st)) -> In p own) /\
     ~ spec_failed_unchanged (obs_of opt st st' oc r own).
 Proof.
-  exists w_opts, (fst (step phys_id w_opts (init w_disk0) w_oc1)), w_oc2, [P "/out/a.js"; P "/out/old.js"].
+  exists w_opts, (fst (step_before_fix phys_id w_opts (init w_disk0) w_oc1)), w_oc2, [P "/out/a.js"; P "/out/old.js"].
   split; [reflexivity|]. split.
   - vm_compute. intros p [H|[H|[]]]; [right; left | left]; exact H.
   - intro H. specialize (H (or_introl eq_refl) (P "/out/a.js")). vm_compute in H. discriminate.
